@@ -141,11 +141,12 @@ func WriteJSONLines(path string, vals []interface{}) error {
 // Result of running one case against the implementation.
 type Result struct {
 	ID         int64       `json:"id"`
-	Term       string      `json:"term,omitempty"` // Coq term of type `case` (inputs + observed outputs)
-	Impl       interface{} `json:"impl"`           // observed outputs, for the replay file
-	NonTrivial bool        `json:"nontrivial"`     // by the property's stated rule
-	Tags       []string    `json:"tags"`           // input features (for the distribution report and finding matchers)
-	Hash       string      `json:"hash"`           // content hash of the input
+	Term       string      `json:"term,omitempty"`  // Coq term of type `case` (inputs + observed outputs)
+	Impl       interface{} `json:"impl"`            // observed outputs, for the replay file
+	NonTrivial bool        `json:"nontrivial"`      // by the property's stated rule
+	Tags       []string    `json:"tags"`            // input features (for the distribution report and finding matchers)
+	Hash       string      `json:"hash"`            // content hash of the input
+	Heavy      bool        `json:"heavy,omitempty"` // expensive to evaluate in Coq: gets a shard file of its own
 }
 
 func Hash(v interface{}) string {
@@ -196,11 +197,24 @@ func WriteRun(dir, header, verdictFn string, results []Result, perShard int) err
 	if perShard <= 0 {
 		perShard = 100
 	}
-	for i, k := 0, 0; i < len(results); i, k = i+perShard, k+1 {
-		j := i + perShard
-		if j > len(results) {
-			j = len(results)
+	// heavy cases first, one shard each (shards are evaluated in parallel); the rest in groups of perShard
+	var groups [][]Result
+	var light []Result
+	for _, r := range results {
+		if r.Heavy {
+			groups = append(groups, []Result{r})
+		} else {
+			light = append(light, r)
 		}
+	}
+	for i := 0; i < len(light); i += perShard {
+		j := i + perShard
+		if j > len(light) {
+			j = len(light)
+		}
+		groups = append(groups, light[i:j])
+	}
+	for k, grp := range groups {
 		name := fmt.Sprintf("shard_%03d.v", k)
 		f, err := os.Create(filepath.Join(dir, name))
 		if err != nil {
@@ -209,13 +223,13 @@ func WriteRun(dir, header, verdictFn string, results []Result, perShard int) err
 		w := bufio.NewWriter(f)
 		// one Definition per case keeps each term small (a single huge list literal overflows coqc's stack)
 		fmt.Fprintf(w, "%s\nOpen Scope Z_scope.\n", header)
-		for n, r := range results[i:j] {
+		for n, r := range grp {
 			fmt.Fprintf(w, "Definition case_%d := %s.\n", n, r.Term)
 		}
 		fmt.Fprintf(w, "Definition cases := [\n")
-		for n, r := range results[i:j] {
+		for n, r := range grp {
 			sep := ";"
-			if n == j-i-1 {
+			if n == len(grp)-1 {
 				sep = ""
 			}
 			fmt.Fprintf(w, " (%s, case_%d)%s\n", Z(r.ID), n, sep)
